@@ -224,6 +224,13 @@ func affineDepth(v ssa.Value, d int) term {
 				}
 				return t
 			}
+			// len(x[l:]) is len(x) - l (x a slice or a string: the bound is its length)
+			if sl, ok := x.Call.Args[0].(*ssa.Slice); ok && b == "len" && sl.High == nil && sl.Low != nil {
+				if _, isPtr := sl.X.Type().Underlying().(*types.Pointer); !isPtr {
+					t := atomTerm("len("+valKey(sl.X)+")", x)
+					return t.add(affineDepth(sl.Low, d+1), -1)
+				}
+			}
 			return atomTerm(b+"("+valKey(x.Call.Args[0])+")", x)
 		}
 	}
